@@ -540,7 +540,7 @@ func r08d(c *core.Ctx) {
 		core.EachInstr(fn, func(_ *ssa.BasicBlock, _ int, in ssa.Instruction) {
 			if fa, ok := in.(*ssa.FieldAddr); ok {
 				r := core.FieldAddrRef(fa)
-				if r.Struct != nil && r.Struct.Obj().Name() == "Msg" {
+				if r.Struct != nil && core.StructName(r.Struct) == "Msg" {
 					secs[r.Name] = true
 				}
 			}
